@@ -47,7 +47,7 @@ from hpstatic.loader import AnalysisError, norm_src
 from hpstatic.terms import (sym, intern, show, subterms, calls_in, NONE, num, kw,
                             TRUE, FALSE)
 from . import c07, c15
-from .common import init_of, init_params, final_self, path_has, as_difference
+from .common import init_of, init_params, final_self, path_has, as_difference, call_args, term_args
 from hpstatic.logic import cmp_is
 
 MUTATION_TARGETS = {'holopy/inference/nmpfit.py': ['fit', 'initialize_fit', 'calc_residuals', 'cleanup_from_fit', 'minimize', 'unscale_pars_from_minimizer', 'get_errors_from_minimizer'], 'holopy/inference/scipyfit.py': ['fit', 'minimize', 'unscale_pars_from_minimizer'], 'holopy/inference/result.py': ['_serialize_as_dataset', '_unserialize', 'forward'], 'holopy/inference/interface.py': ['fit', 'validate_strategy']}
@@ -1011,8 +1011,8 @@ def seeded_subset(check, prog):
     it = Interp(prog, max_depth=1, opaque=[MD + 'make_subset_data'])
     res = it.analyze(q)
     ms = [c for c in it.calls if c['name'] == MD + 'make_subset_data']
-    ok = len(ms) == 1 and dict(ms[0]['kwargs']).get('seed') == ('attr', sym('self'), 'seed') \
-        and dict(ms[0]['kwargs']).get('pixels') == ('attr', sym('self'), 'npixels')
+    ok = len(ms) == 1 and call_args(prog, ms[0]).get('seed') == ('attr', sym('self'), 'seed') \
+        and call_args(prog, ms[0]).get('pixels') == ('attr', sym('self'), 'npixels')
     check.require(ok, 'L4-repeatable-subset', 'NmpfitStrategy.initialize_fit',
                   'the pixel subset is drawn with the strategy\'s npixels and seed',
                   prog.loc(q, prog.func(q)))
@@ -1136,8 +1136,8 @@ def wiring(check, prog):
         npx = intern(('attr', me, 'npixels'))
         isnone = intern(('cmp', 'is', npx, NONE))
         notnone = intern(('cmp', 'is not', npx, NONE))
-        ok = len(sub) == 1 and sub[0]['args'][0] == data and \
-            dict(sub[0]['kwargs']).get('pixels') == npx
+        ok = len(sub) == 1 and call_args(prog, sub[0]).get('data') == data and \
+            call_args(prog, sub[0]).get('pixels') == npx
         if ok:
             cs = [(t, p) for t, p in sub[0]['cond'] if t != empty]
             ok = cs in ([(isnone, False)], [(notnone, True)])
